@@ -6,25 +6,35 @@ import (
 	"testing"
 
 	"github.com/opsidian/parsley/parsley"
-	"github.com/opsidian/parsley/text"
 	"pgregory.net/rapid"
 )
 
 // SrcCase is a source text (C05, C16).
 type SrcCase struct {
 	Src string `json:"src"`
+	Pre int    `json:"pre,omitempty"` // > 0: the expression's file follows a file of that many bytes
 }
 
-func (c *SrcCase) Describe() string { return fmt.Sprintf("%q", c.Src) }
+func (c *SrcCase) Describe() string {
+	if c.Pre > 0 {
+		return fmt.Sprintf("%q after a file of %d bytes", c.Src, c.Pre)
+	}
+	return fmt.Sprintf("%q", c.Src)
+}
 
 var arithP = arithParser()
 
 func checkC05(ci interface{}, st *Stats) error {
-	s := ci.(*SrcCase).Src
-	return checkArith(s, st)
+	c := ci.(*SrcCase)
+	if c.Pre > 0 {
+		st.Class("file placed after another file")
+	}
+	return checkArithAt(c.Src, c.Pre, st)
 }
 
-func checkArith(s string, st *Stats) error {
+func checkArith(s string, st *Stats) error { return checkArithAt(s, 0, st) }
+
+func checkArithAt(s string, pre int, st *Stats) error {
 	want, werr := refEval(s)
 	if st != nil {
 		switch {
@@ -34,8 +44,7 @@ func checkArith(s string, st *Stats) error {
 			st.Class("source longer than 100 bytes")
 		}
 	}
-	f := text.NewFile("f", []byte(s))
-	ctx := parsley.NewContext(parsley.NewFileSet(f), text.NewReader(f))
+	ctx, _, _ := NewCtxAt(s, pre)
 	// Work bound (a count, not a clock): the pinned library needs about 3 n^2 parser calls for an
 	// n-byte expression; a parse is stopped at 1000 n^2 + 10^6 calls and reported, because
 	// "Evaluate returns the value / an error" is not met by a parse that practically never ends.
@@ -146,7 +155,11 @@ func init() {
 			if rapid.IntRange(0, 5).Draw(t, "mutate") == 0 {
 				s = mutateSource(t, s, "+-*/() 1.x0\n\r\v\x00_")
 			}
-			return &SrcCase{Src: s}
+			pre := 0
+			if rapid.IntRange(0, 4).Draw(t, "placed") == 2 {
+				pre = rapid.SampledFrom([]int{1, 2, 5, 20, 300, 65536}).Draw(t, "pre")
+			}
+			return &SrcCase{Src: s, Pre: pre}
 		},
 		Check: checkC05,
 	})
